@@ -49,7 +49,7 @@ EDITS = {
     'param-renamed': [('user_id: i32', 'HOLE_n: i32')],
     'param-optional': [('user_id: i32', 'user_id: Option<i32>')],
     'return-type': [('Result<User, String>', 'Result<Vec<User>, String>')],
-    'command-rename-all': [('#[tauri::command]\npub fn get_user', '#[tauri::command(rename_all = "snake_case")]\npub fn get_user')],
+    'command-rename-all': [('#[tauri::command]\npub fn get_user', '#[tauri::command]\n#[serde(rename_all = "snake_case")]\npub fn get_user')],
     'field-added': [('pub id: i32,', 'pub id: i32,\n    pub HOLE_n: bool,')],
     'field-type': [('pub id: i32,', 'pub id: String,')],
     'field-optional': [('pub id: i32,', 'pub id: Option<i32>,')],
@@ -69,6 +69,9 @@ EDITS = {
     'event-payload-struct-edited': [('pub struct Progress { pub done: u32 }', 'pub struct Progress { pub done: u32, pub total: Option<u32> }')],
     'channel-added': [('user_id: i32)', 'user_id: i32, on_progress: tauri::ipc::Channel<Progress>)')],
     'private-field-type': [('    secret: String,', '    secret: u64,')],
+    # edits that must NOT change the output: they keep the cached branch ("up to date") under test
+    'comment-only': [('#[tauri::command]\npub fn get_user', '// a comment\n#[tauri::command]\npub fn get_user')],
+    'helper-fn-added': [('#[tauri::command]\npub fn get_user', 'fn helper(x: i32) -> i32 { x + 1 }\n#[tauri::command]\npub fn get_user')],
 }
 CHANNEL_BASE = BASE.replace('user_id: i32)', 'user_id: i32, on_progress: tauri::ipc::Channel<Progress>)')
 EDITS_CH = {
@@ -79,7 +82,7 @@ EDITS_CH = {
 CONF_EDITS = {
     'mode-none-to-zod': (dict(validationLibrary='none'), dict(validationLibrary='zod')),
     'mode-zod-to-none': (dict(validationLibrary='zod'), dict(validationLibrary='none')),
-    'type-mapping-added': (dict(), dict(typeMappings={'Uuid': 'string'})),
+    'type-mapping-added': (dict(typeMappings=None), dict(typeMappings={'Uuid': 'string'})),
     'type-mapping-changed': (dict(typeMappings={'Uuid': 'string'}), dict(typeMappings={'Uuid': 'number'})),
     'include-private': (dict(includePrivate=False), dict(includePrivate=True)),
     'visualize-deps-on': (dict(visualizeDeps=False), dict(visualizeDeps=True)),
@@ -103,7 +106,9 @@ def apply_edits(src, subs):
 class C08(H.Check):
     id = 'C08'
     title = 'The cache never leaves stale bindings: success means output is current'
-    required_covers = ('path:cli', 'path:build', 'second-run:up-to-date', 'second-run:regenerated', 'edit:source', 'edit:config', 'edit:file-lost', 'sequence')
+    INERT = ('include-private', 'comment-only', 'helper-fn-added')      # includePrivate is hashed but read by no generator: the edit cannot change the output
+    required_covers = ('path:cli', 'path:build', 'second-run:up-to-date', 'second-run:regenerated', 'edit:source', 'edit:config', 'edit:file-lost', 'sequence') + \
+        tuple('effective:' + l for l in list(EDITS) + list(EDITS_CH) + list(CONF_EDITS) + list(FILE_EDITS) + ['file-lost:' + f for f in LOST] if l not in ('include-private', 'comment-only', 'helper-fn-added'))
 
     def bounds(self, tier):
         return {'edit classes': sorted(list(EDITS) + list(EDITS_CH) + list(CONF_EDITS) + list(FILE_EDITS) + ['file-lost:' + f for f in LOST]),
@@ -144,7 +149,7 @@ class C08(H.Check):
 
     def mutant_scenarios(self, tier, name):
         for j in self.scenarios('quick'):
-            if j[0] in ('cli/src/param-type', 'build/src/field-type', 'build/src/field-added', 'cli/conf/mode-none-to-zod', 'cli/src/enum-variant-added', 'build/src/command-added', 'cli/src/channel-type'):
+            if j[0] in ('cli/src/param-type', 'cli/src/comment-only', 'build/src/field-type', 'build/src/field-added', 'cli/conf/mode-none-to-zod', 'cli/src/enum-variant-added', 'build/src/command-added', 'cli/src/channel-type'):
                 yield j
 
     # ------------------------------------------------------------------------------------------
@@ -181,7 +186,8 @@ class C08(H.Check):
                 e.cover('edit:source')
             elif kind == 'conf':
                 t0, t1 = CONF_EDITS[p['edit']]
-                stages = [(BASE, dict(base_tg, **t0), None, None), (BASE, dict(base_tg, **t1), None, None)]
+                stages = [(BASE, {k: v for k, v in dict(base_tg, **t0).items() if v is not None}, None, None),
+                          (BASE, {k: v for k, v in dict(base_tg, **t1).items() if v is not None}, None, None)]
                 e.cover('edit:config')
             elif kind == 'file':
                 t0, t1 = FILE_EDITS[p['edit']]
@@ -247,6 +253,7 @@ class C08(H.Check):
                 if lost:
                     if not box.delete_out(lost):
                         raise PathAbort()
+                prev = {n.py(): c for n, c in box.out_files()}
                 r = run(box, stages[k])
                 if not X.is_ok(r):
                     # a run that reports failure promises nothing
@@ -259,6 +266,18 @@ class C08(H.Check):
                     return ('err', None)
                 have = {n.py(): c for n, c in box.out_files()}
                 base = 'C08/%s/%s' % (path, lab if kind != 'seq' else 'seq:' + '+'.join(p['seq'][:k]))
+                # vacuity witness: the edit does change what is generated (on some path of this scenario)
+                for n, c in ref.out_files():
+                    n = n.py()
+                    if n == '.typecache':
+                        continue
+                    if n not in prev:
+                        e.cover('effective:' + lab)
+                        break
+                    eq = X.content_eq(prev[n], c)
+                    if eq is False or (eq is not True and e.feasible(z_not(eq))):
+                        e.cover('effective:' + lab)
+                        break
                 for n, c in ref.out_files():
                     n = n.py()
                     if n == '.typecache':
